@@ -86,6 +86,15 @@ def gather(ctx: Ctx):
         for tup in itertools.product(ALPHABET, repeat=L):
             cases.append(("short-exhaustive", "".join(tup)))
     ctx.coverage["short_strings_exhaustive_up_to"] = maxlen
+    # everything that can stand between [ and ] (atoms are where most of the lexical rules live)
+    inner = ctx.pick(3, 4)
+    for L in range(0, inner + 1):
+        for tup in itertools.product(ALPHABET, repeat=L):
+            w = "".join(tup)
+            cases.append(("bracket-exhaustive", "[" + w + "]"))
+            if L == inner and rng.random() < 0.15:
+                cases.append(("bracket-exhaustive", "Muss[" + w + "]"))
+    ctx.coverage["bracket_contents_exhaustive_up_to"] = inner
     for _ in range(ctx.pick(1500, 20000)):
         L = rng.randint(maxlen + 1, 9)
         cases.append(("random", "".join(rng.choice(ALPHABET) for _ in range(L))))
@@ -110,7 +119,8 @@ def run(ctx: Ctx) -> None:
                 "3/4 over a 15-symbol alphabet (exhaustive), random strings, a Unicode stream; three entry points + validity check each; "
                 "non-trivial = not the empty string; distinct strings counted")
     ctx.coverage["generated_changed"] = extract.regenerate(["CharClasses", "Grammar"])
-    ok = ctx.lean_build(MODULES + ["driver"])
+    ok = ctx.lean_build(MODULES)
+    drv = ctx.lean_build_driver()
     if ok:
         ctx.lean_audit(MODULES)
         if not ctx.quick:
@@ -155,7 +165,7 @@ def run(ctx: Ctx) -> None:
         impl_rows.append(row)
     for st, s in cases[:2] + [c for c in cases if c[0] == "ahb-bad-part"][:2] + [c for c in cases if c[0] == "unicode"][:2]:
         ctx.sample({"stream": st, "s": s})
-    if ok:
+    if drv:
         reqs = []
         for _, s in cases:
             reqs += [{"op": "parse", "s": s}, {"op": "scanAhb", "s": s}, {"op": "resolve", "s": s}]
